@@ -402,7 +402,11 @@ def run_case(ctx, case):
                 if got is not exp:
                     kind = {"attr": "attribute", "tag": "tag", "res": "reserved", "default": "default"}[fk]
                     if d["k"] == "wildcard" and vk == "str_nl":
-                        sig = "leaf:wildcard:newline_in_value"
+                        # whether `*` crosses a line break is not defined by the search syntax
+                        # documentation: not judged (oracle B only covers unambiguous cases)
+                        ctx.count("leaf_not_judged_by_B")
+                        ctx.skip("wildcard_vs_newline_not_defined")
+                        continue
                     elif fk == "tag" and d["k"] in ("cmp", "range") and vk == "absent":
                         sig = "leaf:tag_comparison:key_ignored"
                     else:
